@@ -96,13 +96,19 @@ class Checker:
         assert len(vb) == n
         # reference: elementwise Scalars
         ref = []
-        for x, y in zip(va, vb):
-            ref.append(_apply(op, Scalar.CreateWithQuantity(qa, x), Scalar.CreateWithQuantity(qb, y)))
-        ctx.ev(n)
-        if n:
-            ref_q = ref[0].GetQuantity()
-        else:
-            ref_q = _apply(op, Scalar.CreateWithQuantity(qa, 1.0), Scalar.CreateWithQuantity(qb, 1.0)).GetQuantity()
+        try:
+            for x, y in zip(va, vb):
+                ref.append(_apply(op, Scalar.CreateWithQuantity(qa, x), Scalar.CreateWithQuantity(qb, y)))
+            ctx.ev(n)
+            if n:
+                ref_q = ref[0].GetQuantity()
+            else:
+                ref_q = _apply(op, Scalar.CreateWithQuantity(qa, 2.0), Scalar.CreateWithQuantity(qb, 3.0)).GetQuantity()
+        except ZeroDivisionError:
+            # a divisor that is exactly zero once it is re-expressed in the other operand's offset unit (1 atm is
+            # 0 bar(g)): division by zero is not part of the statement
+            ctx.cls("skipped_divisor_zero_after_matching")
+            return
         differs = dict(case["qa"]["d"]) != dict(case["qb"]["d"])
         for ka in KINDS:
             for kb in KINDS:
